@@ -610,6 +610,9 @@ func runC09(p *P, r *R) {
 	borrow(p, r, "C02", runC02, map[string]string{"R02.3": "R09.10", "R02.5": "R09.10", "R02.6": "R09.10", "R02.10": "R09.10"}, nil)
 	borrow(p, r, "C15", runC15, map[string]string{"R15.1": "R09.7", "R15.2": "R09.7"}, nil)
 	borrow(p, r, "C08", runC08, map[string]string{"R08.4": "R09.11"}, nil)
+	// R09.14 a Close() that met a running callback is always finished (otherwise the stream stays registered and keeps
+	// its slices for the life of the session) (shared with C10 R10.8)
+	borrow(p, r, "C10", runC10, map[string]string{"R10.8": "R09.14"}, nil)
 
 	// ---- R09.8 census of main-list popFront callers
 	allowed := map[string]string{
